@@ -598,6 +598,13 @@ def run_check(spec, tier, seed):
     print("%s %s: theorems %d/%d, cases %d (%d non-trivial), disagreements %d, oracle failures %d (%d known), %.1fs" %
           (prop, tier, discharged, obligations, evaluations, len(nontrivial), len(disagreements),
            len(oracle_fail), len(oracle_fail) - len(unknown_oracle), time.time() - t0))
+    if oracle_fail:
+        cc = {}
+        for f in oracle_fail:
+            cc.setdefault(f["class"], [0, f])
+            cc[f["class"]][0] += 1
+        for k, (n, f) in cc.items():
+            log("oracle class %s: %d cases, e.g. [%s] %s -> %s :: %s" % (k, n, "/".join(f["build"]), f["case"][:160], f["impl"][:100], f["what"][:160]))
     if proof_broken:
         for pb in proof_broken:
             log("PROOF/TIE BROKEN: " + pb)
